@@ -7,6 +7,7 @@ import pathlib
 import os
 import textwrap
 import ctypes
+import keyword
 import logging
 import string
 import sys
@@ -1037,6 +1038,14 @@ class Parser:
                 # underscore is not a valid matlab field name, two are mangled by python
                 self.check_name(fname)
 
+                # a field becomes an attribute in the body of the generated python class: a
+                # keyword can not be one, a name the body uses itself (Double, Struct, ...)
+                # would be replaced for the fields that follow
+                if keyword.iskeyword(fname) or fname in RESERVED_NAMES:
+                    raise RTMASyntaxError(
+                        f"{fname} is a python keyword or a name reserved for internal use by the generated code: {mdf.name}=> {fname} -> {self.current_file}"
+                    )
+
                 if not isinstance(fstr, str):
                     raise InvalidTypeError(
                         f"Field types must be a string not {type(fstr).__name__}: {mdf.name}=> {fname}: {fstr} -> {self.current_file}"
@@ -1081,6 +1090,16 @@ class Parser:
                     assert (
                         len(self.message_defs[ftype].fields) != 0
                     ), f"Signal definitions can not be used as field types: {mdf.name}=> {fname}:{fstr} -> {self.current_file}"
+
+                # the python class body also names the struct or message type of a field: an
+                # earlier field of that name has taken its place there
+                ref = ftype_obj.type_obj if isinstance(ftype_obj, TypeAlias) else ftype_obj
+                if not isinstance(ref, NativeType):
+                    ref_name = f"MDF_{ref.name}" if isinstance(ref, MDF) else ref.name
+                    if any(f.name == ref_name for f in mdf.fields):
+                        raise RTMASyntaxError(
+                            f"Field {ref_name} has the name of the type of a later field: {mdf.name}=> {fname}: {fstr} -> {self.current_file}"
+                        )
 
                 # Expand the length string if needed
                 if len_str:
